@@ -17,7 +17,7 @@ def jobs(tier, seed):
     return [{"seed": seed, "i": i, "n": 40 if q else 250} for i in range(32 if q else 96)]
 
 
-def history(rng, version, directed):
+def history(rng, version, directed, flavour="async"):
     st = []
     if directed:
         st = [["in", "255;255;3;0;3;"], ["in", f"{rng.choice([1, 5, 40])};255;0;0;17;{version}"], ["tick"],
@@ -28,6 +28,11 @@ def history(rng, version, directed):
             # node asks for an id
             st += [["in", "255;255;3;0;3;"], ["cbraise", True], ["present-last-id"], ["cbraise", False], ["in", "255;255;3;0;3;"],
                    ["in", "255;255;3;0;3;"]]
+    if directed and flavour == "sync" and rng.random() < 0.6:
+        # an id request lands while a periodic save of the timer thread is in flight (state serialised, waiting in
+        # fsync, or between two writes); the application then stops cleanly and a new gateway on the same file is asked again
+        st += [["in", "255;255;3;0;3;"], ["restart-during-tick", "255;255;3;0;3;", rng.choice(["fsync", "fsync", "mid-write"])],
+               ["in", "255;255;3;0;3;"]]
     n = rng.randint(8, 30)
     hi = rng.random() < 0.3
     for _ in range(n):
@@ -103,19 +108,20 @@ def run(job):
                 res.count("exhaustion_histories")
                 exhaustion = len(free)
             else:
-                steps = history(rng, cfg["version"], directed=rng.random() < 0.5)
+                steps = history(rng, cfg["version"], directed=rng.random() < 0.5, flavour=cfg["flavour"])
             out = run_one(cfg, steps, tmp)
             res.evals += 1
             res.count("histories")
             res.count("ticks", out["ticks"])
             res.count("restarts", len(out["restarts"]))
+            res.count("id_requests_during_a_save_in_flight", out.get("stops_during_a_tick", 0))
             res.count("presentations_of_handed_out_ids", out.get("presentations_of_handed_out_ids", 0))
             judge(res, cfg, steps, out)
             if h == 0:
                 res.count("exhaustion_ids_handed_out", len(out["idresp"]))
             if any(x[3] > 1 for x in out["idresp"]) or len(out["idresp"]) >= 2:
                 pres = tuple(sorted({s[1].split(";")[0] for s in steps if s[0] == "in" and ";255;0;0;1" in s[1]}))
-                pat = tuple(i for i, s in enumerate(steps) if s[0] in ("tick", "restart"))
+                pat = tuple(i for i, s in enumerate(steps) if s[0] in ("tick", "restart", "restart-during-tick"))
                 res.nontrivial((cfg["flavour"], cfg["ext"], pres, pat, len(out["idresp"])))
             if h < 2 and job["i"] == 0:
                 res.sample({"cfg": cfg, "steps": steps, "id_responses": [(x[2], x[3]) for x in out["idresp"]]})
@@ -140,14 +146,16 @@ def finish(agg, tier):
     return {
         "rule": "histories mixing id requests, node presentations of ids from {0,1,..,127,252..255,random}, other traffic, save "
                 "ticks (the real schedule_save body fired through a captured timer / the real asyncio save loop on a virtual clock) "
-                "and stop -> new gateway -> start_persistence cycles on one file; JSON and pickle; threaded and asyncio; one history per job "
+                "and stop -> new gateway -> start_persistence cycles on one file, among them (threaded flavour) an id request that arrives while a periodic "
+                "save of the timer thread is in flight (paused in fsync or between two writes), followed by stop() and a restart; JSON and pickle; threaded and asyncio; one history per job "
                 "fills the id space (all but 1-4 ids presented, the rest requested and never presented) and keeps requesting, also after a restart. Monitor: "
                 "every id response must carry an id in 1..254 that is neither a node known immediately before the request nor an id "
                 "handed out earlier (the monitor's set survives restarts). distinct = (flavour, format, presented ids, tick/restart "
                 "positions, number of id responses); non-trivial when >= 2 id responses or one after a restart were judged.",
         "floors": [("id_responses", c.get("id_responses", 0), 2000), ("id_responses_after_restart", c.get("id_responses_after_restart", 0), 500),
                    ("restarts", c.get("restarts", 0), 800), ("ticks", c.get("ticks", 0), 800),
+                   ("id_requests_during_a_save_in_flight", c.get("id_requests_during_a_save_in_flight", 0), 40),
                    ("exhaustion_histories", c.get("exhaustion_histories", 0), 20), ("exhaustion_ids_handed_out", c.get("exhaustion_ids_handed_out", 0), 30)],
         "assumptions": ["the converse (an id must be found whenever one is free) is not demanded"],
-        "show": ["histories", "id_responses", "id_responses_after_restart", "ticks", "restarts"],
+        "show": ["histories", "id_responses", "id_responses_after_restart", "ticks", "restarts", "id_requests_during_a_save_in_flight"],
     }
